@@ -50,7 +50,7 @@ def classify(r, labels=None, locals_=()):
     ens, helper, safety, canary = [], [], [], []
     labels = labels or {}
     for f in r['failures']:
-        is_post = 'postcondition' in f['id'] or 'Check ensures' in f['desc']
+        is_post = 'postcondition' in f['id'] or 'Check ensures' in f['desc'] or (f['label'] and '.assertion.' in f['id'] and f['desc'].startswith('LEMMA'))
         if 'VACUITY_CANARY' in f['desc']:
             canary.append(f)
         elif f['label'] and is_post and labels.get(f['label']):
@@ -117,8 +117,23 @@ def main():
         if hasattr(unit, 'native_validate'):
             nat_future = ex.submit(unit.native_validate, pu, work, tier, seed)
 
+        prof_ = pu['low']['profile']
+        unl = set(getattr(prof_, 'fn_unlowered', {}))
+
+        def missing_bodies(h, mode):
+            """functions whose body is needed by this run (reachable and not replaced) but could not be lowered"""
+            repl = set(h.get('replace', []) if mode == 'proof' else h.get('bounded_replace', []))
+            need = set()
+            todo, seen = [h['fn']], set()
+            reach = vrun.reachable_functions(pu['low'], prof_, h['fn'])
+            return sorted((reach & unl) - (repl - {h['fn']}))
+
         def go(h):
             try:
+                mb = missing_bodies(h, 'proof')
+                if mb:
+                    return dict(harness=h['name'], fn=h['fn'], status='extraction-break', results=[], failures=[], wall_s=0, solver_s=0, mode='proof',
+                                msg='; '.join(prof_.fn_unlowered[f] for f in mb), guards=[], cmd='', replace=h.get('replace', []), flags=h.get('flags', []))
                 if h['fn'] in pu['breaks'] or any(c in pu['breaks'] for c in h.get('inlines', [])):
                     return dict(harness=h['name'], fn=h['fn'], status='binding-break', results=[], failures=[], wall_s=0,
                                 solver_s=0, mode='proof', msg=pu['breaks'].get(h['fn'], 'callee binding break'), guards=[], cmd='', replace=h.get('replace', []), flags=h.get('flags', []))
@@ -137,6 +152,10 @@ def main():
 
         def go_bounded(h):
             try:
+                mb = missing_bodies(h, 'bounded')
+                if mb:
+                    return dict(harness=h['name'] + '.bounded', fn=h['fn'], status='extraction-break', results=[], failures=[], wall_s=0, solver_s=0, mode='bounded',
+                                msg='; '.join(prof_.fn_unlowered[f] for f in mb), guards=[], cmd='', replace=[], flags=[])
                 return vrun.run_harness(unit, h, pu['src_b'], pu['wd'], pu['label_by_line_b'], 'bounded')
             except Break as e:
                 return dict(harness=h['name'] + '.bounded', fn=h['fn'], status='break', results=[], failures=[], wall_s=0,
@@ -157,7 +176,7 @@ def main():
             if dep and r['status'] == 'ok':
                 r['status'] = 'callee-contract-unproved'
                 r['msg'] = 'uses the contract of %s, which was not established' % ', '.join(dep)
-            if r['status'] in ('binding-break', 'timeout', 'toolerror', 'callee-contract-unproved') or r['status'] == 'failed':
+            if r['status'] in ('binding-break', 'timeout', 'toolerror', 'callee-contract-unproved', 'extraction-break') or r['status'] == 'failed':
                 need_bounded.append(h)
         brs = dict((h['name'], r) for h, r in zip(need_bounded, ex.map(go_bounded, need_bounded)))
         for h, r in zip(hs, rs):
@@ -217,7 +236,7 @@ def main():
                 # is a havocked mid-loop state).  Replay on the real code: the unit's native oracle
                 # evaluates this function's property-level postconditions on the neighbourhood of inputs.
                 pf = (r['_inv'] or [dict(id=r['status'], label=None, desc=why, trace='')])[0]
-                if hasattr(unit, 'replay_counterexample') and r['status'] in ('failed', 'binding-break', 'timeout', 'callee-contract-unproved'):
+                if hasattr(unit, 'replay_counterexample') and r['status'] in ('failed', 'binding-break', 'timeout', 'callee-contract-unproved', 'extraction-break'):
                     try:
                         rr = unit.replay_counterexample(pu, h, pf.get('label'), pf, work, tier, seed)
                     except Exception as e:
